@@ -63,8 +63,8 @@ def one_case(rng, tmpdir, tier, fails, stats, seen):
     from sarpy.io.complex.converter import open_complex
     pt = rng.choice(['RE32F_IM32F', 'RE32F_IM32F', 'RE16I_IM16I', 'AMP8I_PHS8I'])
     rows, cols = rng.randint(2, 48), rng.randint(2, 40)
-    if rng.random() < 0.1:
-        rows, cols = rng.choice([(3, 2100), (2100, 3)])
+    if rng.random() < 0.2:
+        rows, cols = rng.choice([(3, 2100), (2100, 3), (2, 8200), (5, 8193)])
     row_limit = rng.choice([None, rng.randint(1, rows), max(1, rows // 3)])
     case = {'rows': rows, 'cols': cols, 'pixel_type': pt, 'row_limit': row_limit}
     if pt == 'AMP8I_PHS8I':
